@@ -1,6 +1,6 @@
 (* C01 — Log recovery restores the last committed storage content at every crash point.
-   Pinned statements only; proofs live in theories/FileWalProofs.v. *)
-From Agdb Require Import Bytes FileWal FileWalProofs.
+   Pinned statements only; proofs live in theories/FileWalProofs.v, FileWalGuardProofs.v and FileWalRestartProofs.v. *)
+From Agdb Require Import Bytes FileWal FileWalProofs FileWalGuardProofs FileWalRestartProofs.
 Open Scope nat_scope.
 
 (* For every committed file content d0 (empty log), every list of storage-data calls
@@ -44,6 +44,151 @@ Proof.
   intros rs p v m H1 H2 H3. apply records_encs; [exact H1|now apply prefix_incomplete].
 Qed.
 Print Assumptions C01_repair_torn_tail.
+
+(* ---- recovery with the position guard of apply_wal_record (fix: reject a log record positioned
+   beyond the end of the file; `recover_g`, None = FileStorage::new returns the error) ----
+
+   Under exactly the hypotheses of C01_recover_restores — every committed content, every well-positioned
+   operation list, every crash cut incl. torn calls on either file — the guard never fires: the guarded
+   recovery succeeds and returns what the unguarded one returns, i.e. the content at the last completed
+   flush with an empty log.  (The guard is evaluated per record at replay time against the data as
+   already modified by the newer records; the invariant Good' carries "each logged position is <= the
+   length of the data at the moment that record is undone".) *)
+Theorem C01_guarded_recovery_agrees :
+  forall (d0 : bytes) (ops : list op) (k j : nat),
+    wp d0 ops ->
+    let c := crash {| data := d0; wal := [] |} (trace walrev_fixed {| data := d0; wal := [] |} ops) k j in
+    recover_g walrev_fixed c = Some (recover walrev_fixed c) /\
+    recover_g walrev_fixed c = Some {| data := expect d0 {| data := d0; wal := [] |} ops k; wal := [] |}.
+Proof. exact recover_g_from_committed. Qed.
+Print Assumptions C01_guarded_recovery_agrees.
+
+(* the same from any state whose log is a valid undo log of its data with every position inside the
+   data it is applied to (Good'; it implies Good) *)
+Theorem C01_guarded_recovery_agrees_general :
+  forall ops st d0 k j, Good' d0 st -> wp (data st) ops ->
+  recover_g walrev_fixed (crash st (trace walrev_fixed st ops) k j)
+  = Some (recover walrev_fixed (crash st (trace walrev_fixed st ops) k j)).
+Proof. exact recover_g_restores. Qed.
+Print Assumptions C01_guarded_recovery_agrees_general.
+
+Theorem C01_guarded_invariant_implies_plain :
+  forall d0 st, Good' d0 st -> Good d0 st.
+Proof. exact good'_good. Qed.
+Print Assumptions C01_guarded_invariant_implies_plain.
+
+(* on ANY pair of files and any revision: when the guarded recovery succeeds it is the unguarded one *)
+Theorem C01_guarded_recovery_sound :
+  forall rv st st', recover_g rv st = Some st' -> st' = recover rv st.
+Proof. exact recover_g_some. Qed.
+Print Assumptions C01_guarded_recovery_sound.
+
+(* the guard does fire on a log the storage did not write: one record positioned beyond the end of the
+   file is an error (16 bytes of garbage: p = 2^40, v = [] is the witness of the C07 findings
+   alloc-FileStorage.read/FileStorageMemoryMapped.new and hang-Storage.read_records) *)
+Theorem C01_guard_fires :
+  forall (d : bytes) (p : nat) (v : bytes), ok_rec (p, v) -> length d < p ->
+  recover_g walrev_fixed {| data := d; wal := enc_rec p v |} = None.
+Proof. exact guard_fires. Qed.
+Print Assumptions C01_guard_fires.
+
+Example C01_guard_fires_garbage_log :
+  let d := [x01; x02; x03] in
+  recover_g walrev_fixed {| data := d; wal := le64 1000 ++ le64 0 |} = None.
+Proof. exact guard_fires_far. Qed.
+Print Assumptions C01_guard_fires_garbage_log.
+
+(* "the end" is the current end at replay time: the newer record (applied first) truncates to 2, the
+   older one then lies beyond the end; in the other order, and alone, both are accepted *)
+Example C01_guard_current_end :
+  let d := [x01; x02; x03] in
+  recover_g walrev_fixed {| data := d; wal := enc_rec 3 [x0a] ++ enc_rec 2 [] |} = None /\
+  recover_g walrev_fixed {| data := d; wal := enc_rec 3 [x0a] |} = Some {| data := [x01; x02; x03; x0a]; wal := [] |} /\
+  recover_g walrev_fixed {| data := d; wal := enc_rec 2 [] ++ enc_rec 3 [x0a] |} = Some {| data := [x01; x02]; wal := [] |}.
+Proof. exact guard_fires_current_end. Qed.
+Print Assumptions C01_guard_current_end.
+
+(* ---- recovery is itself crash safe (the repaired code: guard + each record removed from the log as soon
+   as it is undone; FileWal.recovery_calls true is its sequence of file-system calls: cut a torn tail,
+   per record newest first [guard; undo; set_len of the log to the record's start], clear) ----
+
+   Take any crash cut (k, j) of normal operation as in C01_recover_restores, then ANY number of recoveries
+   each interrupted at ANY of its calls (cuts = list of (k', j'): k' calls of that recovery completed, the
+   next one — an undo write — torn after j' bytes).  The next recovery then runs to its end without the guard
+   firing (snd = true), its calls leave exactly the content of the last completed flush with an empty log,
+   and that is what the recovery function recover_g returns. *)
+Theorem C01_recovery_restartable :
+  forall (d0 : bytes) (ops : list op) (k j : nat) (cuts : list (nat * nat)),
+    wp d0 ops ->
+    let c := crash {| data := d0; wal := [] |} (trace walrev_fixed {| data := d0; wal := [] |} ops) k j in
+    let c' := fold_left interrupted cuts c in
+    let want := {| data := expect d0 {| data := d0; wal := [] |} ops k; wal := [] |} in
+    snd (recovery_calls true c') = true /\
+    run_calls c' (fst (recovery_calls true c')) = want /\
+    recover_g walrev_fixed c' = Some want.
+Proof. exact recovery_after_interruptions. Qed.
+Print Assumptions C01_recovery_restartable.
+
+(* the invariant behind it: the states a crash leaves (Recoverable: a valid guarded undo log + a torn
+   tail) are closed under every cut of recovery, and recovery ends in the committed content *)
+Theorem C01_recovery_cuts_recoverable :
+  forall d0 st, Recoverable d0 st ->
+  exists cs, recovery_calls true st = (cs, true) /\
+             (forall k j, Recoverable d0 (crash st cs k j)) /\
+             run_calls st cs = {| data := d0; wal := [] |}.
+Proof. exact recovery_restartable. Qed.
+Print Assumptions C01_recovery_cuts_recoverable.
+
+Theorem C01_crash_cuts_recoverable :
+  forall ops st d0 k j, Good' d0 st -> wp (data st) ops ->
+  Recoverable (expect d0 st ops k) (crash st (trace walrev_fixed st ops) k j).
+Proof. exact crash_recoverable. Qed.
+Print Assumptions C01_crash_cuts_recoverable.
+
+(* the call sequence and the recovery FUNCTIONS agree on ALL files (also on logs the storage did not
+   write): not interrupted, the calls of the repaired code end in the result of recover_g — which is the
+   result of recover — or the guard fires and recover_g is None; the calls of the code of /repo (g = false)
+   end in the result of recover *)
+Theorem C01_recovery_calls_agree :
+  forall st,
+    match recovery_calls true st with
+    | (cs, true) => recover_g walrev_fixed st = Some (run_calls st cs) /\ run_calls st cs = recover walrev_fixed st
+    | (_, false) => recover_g walrev_fixed st = None
+    end /\
+    snd (recovery_calls false st) = true /\
+    run_calls st (fst (recovery_calls false st)) = recover walrev_fixed st.
+Proof.
+  intros st. split; [|exact (recovery_calls_plain_end st)].
+  pose proof (recovery_calls_spec st) as S. pose proof (recovery_calls_end st) as E.
+  destruct (recovery_calls true st) as [cs [|]]; [split; [exact S|now apply E]|exact S].
+Qed.
+Print Assumptions C01_recovery_calls_agree.
+
+(* WHY the guard alone (first version of fixes/C07-wal-position.diff) was rejected: the code of /repo replays
+   the whole log and clears it only at the end (recovery_calls false).  A recovery interrupted after the
+   undo calls and before the clear leaves the undone file with the FULL log; on the next open the newest
+   record lies beyond the end of the (already truncated) file: the guard fires and the database can never
+   be opened again, where the unguarded recovery restores it.  2 committed bytes; resize 5; resize 4; crash.
+   With the records removed as they are undone (recovery_calls true) every cut recovers. *)
+Theorem C01_simple_guard_refuted :
+  let d0 := [x01; x02] in
+  let c := run_calls (st0 d0) (trace walrev_fixed (st0 d0) [OResize 5; OResize 4]) in
+  let cs := fst (recovery_calls false c) in
+  recover_g walrev_fixed (crash c cs 2 0) = None /\
+  recover walrev_fixed (crash c cs 2 0) = st0 d0 /\
+  forall k, k <= 6 -> recover_g walrev_fixed (crash c (fst (recovery_calls true c)) k 0) = Some (st0 d0).
+Proof. exact simple_guard_refuted. Qed.
+Print Assumptions C01_simple_guard_refuted.
+
+(* the same with 50 committed bytes; resize 100; resize 90 (the log then holds (50, []) and (90, 10 bytes)) *)
+Theorem C01_simple_guard_refuted_50 :
+  let d0 := repeat x01 50 in
+  let c := run_calls (st0 d0) (trace walrev_fixed (st0 d0) [OResize 100; OResize 90]) in
+  let cut := crash c (fst (recovery_calls false c)) 2 0 in
+  length (data cut) = 50 /\ records (wal cut) = [(50, []); (90, repeat x00 10)] /\
+  recover_g walrev_fixed cut = None /\ recover walrev_fixed cut = st0 d0.
+Proof. exact simple_guard_refuted_50. Qed.
+Print Assumptions C01_simple_guard_refuted_50.
 
 (* the three defects of the code before the fix: commit (each switched back on alone) *)
 Theorem C01_pinned_refuted_replay_order :
